@@ -137,6 +137,23 @@ class Translator(object):
             body = node.body
         return node
 
+    def proposal_slices(self, qualname, consts=None, state_params=(), test_overrides=None):
+        """redraw-until-in-range proposal code: returns (loops, items, lets, extra_params, src_hash) where each loop is
+        {'var', 'candidate', 'guard', 'redraw'} and items are the entries of the returned dictionary."""
+        fn = self.find(qualname)
+        st = _State(self, consts or {}, None, set(), set())
+        st.loop_mode = True
+        st.state_params = set(state_params)
+        st.test_overrides = dict(test_overrides or {})
+        for a in fn.args.args:
+            if a.arg != 'self':
+                raise Untranslatable('proposal function with arguments', fn)
+        res = st.block(fn.body, st.env)
+        if res is None or res[0] != 'dict':
+            raise Untranslatable('proposal function does not return a dictionary', fn)
+        h = hashlib.sha256(ast.get_source_segment(self.src, fn).encode()).hexdigest()
+        return st.loops, res[1], st.lets, st.extra_params, h
+
     def source_of(self, qualname):
         return ast.get_source_segment(self.src, self.find(qualname))
 
@@ -264,6 +281,9 @@ class _State(object):
         self.state_params = set()
         self.methods = {}
         self.state_vars = []
+        self.loop_mode = False
+        self.loops = []
+        self.n_random = 0
         self.consts = consts
         self.env = {}
         self.lets = []
@@ -368,6 +388,21 @@ class _State(object):
             if self.shape_only_test(s.test) and self.shape_only_body(s.body, env):
                 self.stats['shape_branches_skipped'] += 1
                 return None
+            if self.loop_mode:
+                # redraw-until-accepted loop: record guard (as a function of the candidate), first draw and redraw
+                guard = self.cond(s.test, env)
+                env_b = dict(env)
+                if self.block(s.body, env_b) is not None:
+                    raise Untranslatable('return inside a redraw loop', s)
+                changed = [k for k in env_b if env_b[k] != env.get(k) and '[' not in k and not k.startswith('self.')]
+                if len(changed) != 1 or env.get(changed[0], ('x',))[0] != 'var':
+                    raise Untranslatable('redraw loop does not update exactly one candidate variable', s)
+                var = changed[0]
+                self.loops.append({'var': var, 'candidate': env[var][1], 'guard': guard, 'redraw': env_b[var]})
+                acc = self.fresh(var + '_accepted')
+                self.extra_params.append(acc)
+                env[var] = ('var', acc)
+                return None
             raise Untranslatable('while loop', s)
         if isinstance(s, ast.With):
             return self.block_result(s.body, env)
@@ -431,6 +466,9 @@ class _State(object):
                 env[target.id] = ('var', v)
                 return
             val = self.expr(value, env)
+            if val[0] == 'dict':
+                env[target.id] = val
+                return
             if val[0] == 'tuple':
                 env[target.id] = ('tuple', [v if v[0] == 'tuple' else self.bind(target.id, v) for v in val[1]])
                 return
@@ -444,6 +482,12 @@ class _State(object):
                 self.bind_target(target, val, env, s)
                 return
             raise Untranslatable('unpacking of a non-tuple value', s)
+        if isinstance(target, ast.Subscript) and isinstance(target.value, ast.Name) and \
+                env.get(target.value.id, ('x',))[0] == 'dict' and isinstance(target.slice, ast.Constant):
+            dct = dict(env[target.value.id][1])
+            dct[target.slice.value] = self.bind('%s_%s' % (target.value.id, target.slice.value), self.expr(value, env))
+            env[target.value.id] = ('dict', dct)
+            return
         if isinstance(target, ast.Subscript) and isinstance(target.value, ast.Name) and \
                 env.get(target.value.id, ('x',))[0] == 'tuple':
             idx = self.expr(target.slice, env)
@@ -780,6 +824,8 @@ class _State(object):
             return self.cond(n, env)
         if isinstance(n, (ast.Tuple, ast.List)):
             return ('tuple', [self.expr(x, env) for x in n.elts])
+        if isinstance(n, ast.Dict) and not n.keys:
+            return ('dict', {})
         if isinstance(n, ast.Subscript):
             base = n.value
             if isinstance(n.slice, ast.Constant) and isinstance(n.slice.value, str):
@@ -846,6 +892,11 @@ class _State(object):
         args = n.args
         if d == 'copy.copy' and len(args) == 1:
             return self.expr(args[0], env)
+        if self.loop_mode and d in ('np.random.randn', 'np.random.rand'):
+            self.n_random += 1
+            v = self.fresh(('z%d' if d.endswith('randn') else 'u%d') % self.n_random)
+            self.extra_params.append(v)
+            return ('var', v)
         # string helpers on constants (phase normalisation)
         if isinstance(n.func, ast.Attribute):
             recv = n.func.value
